@@ -1,3 +1,4 @@
+import WS.Lemmas.RoundTripLimit
 import WS.Lemmas.ContentRF
 import WS.Lemmas.Sequences
 import WS.Lemmas.PairRoundtrip
@@ -141,6 +142,33 @@ theorem readFrom_reports_all_data (s : W) (m : MW) (r : Src) (hm : m.err = none)
     (mwReadFrom s m r).1 = (r.chunks.flatten.length, none) := by
   first | exact WS.ContentRF.readFrom_reports_all_data .. | (apply WS.ContentRF.readFrom_reports_all_data <;> assumption)
 
+
+open WS.ReaderDecodes WS.PairRoundtrip in
+/-- `round_trip` for a receiver with a read limit: any limit not below the payload length lets the
+    message through unchanged (and leaves the limit as it is) -/
+theorem round_trip_limited (s : W) (hi : Content.Idle s) (t : Nat) (ht : t = 1 ∨ t = 2) (data : Bytes)
+    (hd : data.length < 2 ^ 40)
+    (c : Conn) (hc : ReaderIdle c) (hrole : c.r.isServer = !s.isServer) (rest : Bytes)
+    (hp : c.r.buf.pending = (writeMessage s t data).2.wire.drop s.wire.length ++ rest)
+    (hend : c.r.buf.t.together = false ∨ rest ≠ [])
+    (hlim : c.r.limit ≤ 0 ∨ (data.length : Int) ≤ c.r.limit) (k : Nat) (hk : 0 < k) :
+    ∃ c1 rid, nextReader c = (.msg t rid false, c1) ∧
+      ∃ c2, readAll c1 rid k = ((data, none), c2) ∧ ReaderIdle c2 ∧ c2.r.buf.pending = rest ∧
+        c2.r.hlog = c.r.hlog ∧ c2.r.limit = c.r.limit := by
+  first | exact WS.RoundTripLimit.round_trip_limited .. | (apply WS.RoundTripLimit.round_trip_limited <;> assumption)
+
+open WS.ReaderDecodes WS.PairRoundtrip WS.Sequences in
+/-- any number of messages sent with WriteMessage, each within the receiver's read limit (their total
+    may be far above it), arrive exactly once, in send order -/
+theorem round_trip_sequence_limited (s : W) (hi : Content.Idle s) (msgs : List (Nat × Bytes))
+    (c : Conn) (hc : ReaderIdle c) (hrole : c.r.isServer = !s.isServer)
+    (hm : ∀ m ∈ msgs, (m.1 = 1 ∨ m.1 = 2) ∧ m.2.length < 2 ^ 40 ∧ (c.r.limit ≤ 0 ∨ (m.2.length : Int) ≤ c.r.limit))
+    (rest : Bytes)
+    (hp : c.r.buf.pending = (writeMsgs s msgs).wire.drop s.wire.length ++ rest)
+    (hend : c.r.buf.t.together = false ∨ rest ≠ []) (k : Nat) (hk : 0 < k) :
+    ∃ c', readMsgs k msgs.length c = (msgs, c') ∧ ReaderIdle c' ∧ c'.r.buf.pending = rest ∧
+      c'.r.hlog = c.r.hlog := by
+  first | exact WS.RoundTripLimit.round_trip_sequence_limited .. | (apply WS.RoundTripLimit.round_trip_sequence_limited <;> assumption)
 
 /-! ### non-vacuity -/
 section NonVacuity
@@ -321,6 +349,28 @@ example : ∃ c', readMsgs 7 3 witSeqRd = (witMsgs, c') ∧ ReaderIdle c' ∧ c'
       c'.r.hlog = witSeqRd.r.hlog ∧ Content.Idle (writeMsgs witS witMsgs) :=
   round_trip_sequence witS witS_idle witMsgs witMsgs_ok witSeqRd witSeqRd_idle (by decide) [0x89, 0x80]
     witSeqRd_pending (Or.inl rfl) (by decide) 7 (by decide)
+
+/-- the reader of `witSeqRd` with a read limit of exactly 40 bytes — the size of the largest of the
+    three messages, 45 bytes in all -/
+def witSeqRdLim : Conn := { witSeqRd with r := { witSeqRd.r with limit := 40 } }
+
+def witSeqRdLim_idle : ReaderIdle witSeqRdLim :=
+  ⟨witSeqRd_idle.noErr, witSeqRd_idle.rem, witSeqRd_idle.fin, witSeqRd_idle.wf, witSeqRd_idle.size, witSeqRd_idle.fuel,
+   witSeqRd_idle.hp, witSeqRd_idle.hq⟩
+
+/-- non-vacuity of `round_trip_sequence_limited` (and of `round_trip_limited` inside it): the three
+    messages are read in full under the limit of 40 -/
+example : ∃ c', readMsgs 7 3 witSeqRdLim = (witMsgs, c') ∧ ReaderIdle c' ∧ c'.r.buf.pending = [0x89, 0x80] ∧
+      c'.r.hlog = witSeqRdLim.r.hlog :=
+  round_trip_sequence_limited witS witS_idle witMsgs witSeqRdLim witSeqRdLim_idle (by decide)
+    (by
+      intro m hm
+      simp only [witMsgs, List.mem_cons, List.not_mem_nil, or_false] at hm
+      rcases hm with rfl | rfl | rfl
+      · exact ⟨Or.inl rfl, by decide, Or.inr (by decide)⟩
+      · exact ⟨Or.inr rfl, by decide, Or.inr (by decide)⟩
+      · exact ⟨Or.inl rfl, by decide, Or.inr (by decide)⟩)
+    [0x89, 0x80] witSeqRd_pending (Or.inl rfl) 7 (by decide)
 
 /-- the same instance evaluated directly on the model -/
 example : (readMsgs 7 3 witSeqRd).1 = witMsgs ∧ (readMsgs 7 3 witSeqRd).2.r.buf.pending = [0x89, 0x80] ∧
